@@ -35,7 +35,7 @@ pub fn hostile(rng: &mut Rng) -> String {
         match rng.below(5) {
             0 | 1 => res.push(*rng.pick(SPECIAL)),
             2 => res.push(char::from(rng.below(128) as u8)),
-            3 => { let w: &[&str] = &["ripe", "rsync error", "\\u0041", "\\n", "a\"b", "x", "\\"]; res.push_str(rng.pick(w)) }
+            3 => { let w: &[&str] = &["ripe", "rsync error", "\\u0041", "\\n", "a\"b", "x", "\\"]; let p: &&str = rng.pick(w); res.push_str(p) }
             _ => res.push(char::from(b'a' + rng.below(26) as u8)),
         }
     }
@@ -85,6 +85,7 @@ fn gen_duration(rng: &mut Rng) -> Value {
     }
 }
 
+const ADDRS: &[&str] = &["192.0.2.1", "2001:db8::1", "127.0.0.1", "::1", "198.51.100.77"];
 const STATUS: &[i64] = &[-2, -1, 200, 204, 304, 404, 500, 599];
 
 /// A fully expanded metrics state.
@@ -118,7 +119,7 @@ pub fn gen_state(rng: &mut Rng, scale: u64) -> Value {
         "log": match gen_log(rng) { Value::Null => json!([]), other => other },
     })).collect();
     let clients: Vec<Value> = (0..rng.below(3)).map(|i| json!({
-        "addr": *rng.pick(&["192.0.2.1", "2001:db8::1", "127.0.0.1", "::1", "198.51.100.77"]),
+        "addr": ADDRS[rng.below(ADDRS.len() as u64) as usize],
         "serial": if rng.chance(1, 2) { Value::Null } else { json!(rng.below(1000) + i) },
         "reset": rng.chance(1, 2),
         "conn": rng.chance(1, 2),
